@@ -32,7 +32,8 @@ OutOf(r)  == {[name |-> x.name, data |-> x.data] : x \in Range(r.out)}
 AllEligible(r) == \A k \in 1..Len(r.files) : Eligible(TreeOf(r)[k], r.all, r.quote)
 Succeeded(r) == r.cexit = 0 /\ r.xexit = 0
 
-Bad(name) == PrintT(<<"BAD", name, i>>) /\ FALSE
+\* always TRUE: the BAD lines on stdout are the verdict (see BUILDING.md)
+Bad(name) == PrintT(<<"BAD", name, i>>)
 Live == i <= Len(Trace)
 
 RecExit == ((Live /\ AllEligible(Trace[i])) => Succeeded(Trace[i])) \/ Bad("RecExit")
